@@ -58,6 +58,7 @@ def gen_plan(seed: int, tier: str, focus: str = "c10") -> dict:
         "slow_drain": r.choice([0.0, 0.0, 0.3, 0.8]),
         "slow_drain_max": r.choice([0.5, 5.0, 40.0]),
         "zero_latency": r.choice([0, 0, 0.3]),
+        "rst_window_hops": r.choice([0, 0, 1, 3]),
     }
     horizon = r.choice([30.0, 30.0, 120.0, 600.0, 3000.0, 7200.0])
     ops = [{"op": "get", "ids": [[1, 10]], "t": 0.0}] if r.random() < 0.8 else [{"op": "desc_update", "addrs": addrs, "t": 0.0}]
@@ -81,6 +82,9 @@ def gen_plan(seed: int, tier: str, focus: str = "c10") -> dict:
             op = {"op": "set_host", "host": r.choice(ADDRS[:4]), "kind": r.choice(["genuine", "genuine", "other", "refuse", "blackhole", "acceptclose", "unreachable"])}
         elif x < 0.68:
             op = {"op": r.choice(["rst", "fin"])}
+            if op["op"] == "rst" and profile.get("rst_window_hops"):
+                op["then"] = r.choice([{"op": "close"}, {"op": "shutdown"}, {"op": "cancel_call"}, {"op": "get", "ids": [[1, 10]]}, {"op": "desc_update", "addrs": addrs, "s": 2}])
+                op["then_ticks"] = r.choice([0, 0, 1, 2])
         elif x < 0.76:
             op = {"op": "close_old", "which": r.randrange(4), "how": r.choice(["fin", "rst"])}
         elif x < 0.82:
